@@ -1,6 +1,7 @@
 //! fv — conformance / exploration harness for caio/foca (see /verif/DESIGN.md)
 mod c01;
 mod c11;
+mod wrap;
 mod c14;
 mod cfgsweep;
 mod cluster;
@@ -94,6 +95,15 @@ fn main() {
             let n = c11::run(&mut tw);
             tw.flush();
             println!("{{\"events\":{},\"panics\":{},\"cov_cases\":{}}}", tw.events, tw.panics, n);
+            return;
+        }
+        "wrap" => {
+            let runs = kv.get("runs").and_then(|v| v.parse().ok()).unwrap_or(8);
+            let steps = kv.get("steps").and_then(|v| v.parse().ok()).unwrap_or(900);
+            let (w, b, s) = wrap::run(seed, runs, steps, &mut tw);
+            tw.flush();
+            println!("{{\"events\":{},\"panics\":{},\"cov_token_wraps\":{},\"cov_epoch_changes\":{},\"cov_wrap_going_idle\":{},\"cov_wrap_reset\":{},\"cov_wrap_defunct\":{}}}",
+                     tw.events, tw.panics, w, b, s[0], s[1], s[2]);
             return;
         }
         "replay" => {
